@@ -182,4 +182,8 @@ def run(prog, tier):
         if not problems:
             res.ok('validate-then-mutate', inst, f.loc(), 'no throw and no may-throw call after the first modification', function=f.sig, expr='all')
     res.info['may_throw_calls_after_effect'] = nchecked
+    # the column adders: no frame receives the column before every frame has been accepted (also when the
+    # frames are reached through copies that share their payload with the stored ones)
+    import p_c06
+    p_c06.column_rules(prog, res, rule='column-atomic')
     return res
